@@ -60,6 +60,17 @@ DEEP = {"parens": "(" * 4000 + ")" * 4000, "open-parens": "(" * 4000, "quotes": 
         "long-reader-macro-name": "#" + "m" * 5000 + " 1", "long-string-of-escapes": '"' + "\\n" * 20000 + '"',
         "long-named-escape": '"\\N{' + "A" * 5000 + '}"', "long-format-spec": 'f"{x :' + ">" * 5000 + '}"'}
 
+# nesting at *moderate* depths (below every recursion limit): reading time must not grow exponentially with the depth.  The very deep
+# texts of DEEP end early with an error; a reader that does twice the work per level is only visible between depths ~10 and ~60.
+NEST = {"parens": ("(", "a", ")"), "brackets": ("[", "a", "]"), "braces": ("{", "a b", "}"), "sets": ("#{", "a", "}"), "tuples": ("#(", "a", ")"),
+        "quotes": ("'", "a", ""), "quasiquote-unquote": ("`~", "a", ""), "unquote-splice": ("`[~@", "a", "]"), "discards": ("#_ ", "a b", ""),
+        "unpack": ("#* ", "a", ""), "annotations": ("#^ ", "a b", ""), "f-string fields": ('f"{', "x", '}"'), "t-string fields": ('t"{', "x", '}"'),
+        "f-string fields with conversion": ('f"{', "x", ' !r}"'), "f-string debug fields": ('f"{', "x", ' = }"'),
+        "format specs": ('f"{x :{', "y", '}}"'), "f-string field in a list": ('[f"{', "x", '}"]'), "f-string in a format spec": ('f"{x :{f"{', "y", '}"}}"'),
+        "calls": ("(f ", "a", " b)"), "dict values": ("{k ", "v", "}"), "mixed brackets": ("([{", "a b", "}])"), "dotted calls": ("(.m ", "o", ")"),
+        "bracket f-string fields": ("#[f[{[", "x", "]}]f]"), "reader macro calls": ("#* #^ ", "a b", "")}
+NEST_DEPTHS = tuple(range(1, 21)) + (24, 28, 32)
+
 _TEXTS = None
 
 
@@ -78,7 +89,11 @@ def observe(text):
     limit = 10 if len(text) <= 1000 else 60
     if signal.getsignal(signal.SIGALRM) is not _alarm:
         signal.signal(signal.SIGALRM, _alarm)
-    signal.setitimer(signal.ITIMER_REAL, limit)
+        signal.signal(signal.SIGVTALRM, _alarm)
+    # the limit is on the CPU time of the reading itself (a verdict must not flip because 16 workers compete for the machine);
+    # wall-clock time is a backstop only
+    signal.setitimer(signal.ITIMER_VIRTUAL, limit)
+    signal.setitimer(signal.ITIMER_REAL, 6 * limit)
     try:
         n = 0
         for _ in hy.read_many(text):
@@ -89,10 +104,11 @@ def observe(text):
     except LexException:
         return None
     except _NoProgress:
-        return f"no result after {limit} s: reading does not terminate (or is slower by four orders of magnitude)"
+        return f"no result after {limit} s of CPU time: reading does not terminate (or is slower by four orders of magnitude)"
     except BaseException as e:  # noqa: BLE001
         return "%s: %s" % (type(e).__name__, str(e)[:120])
     finally:
+        signal.setitimer(signal.ITIMER_VIRTUAL, 0)
         signal.setitimer(signal.ITIMER_REAL, 0)
 
 
@@ -122,9 +138,20 @@ def _gen(spec):
                 yield prog[:i] + c + prog[i:]
     elif kind == "deep":
         yield DEEP[spec[1]]
+    elif kind == "nest":
+        o, c, e = NEST[spec[1]]
+        for d in NEST_DEPTHS:           # increasing depth: the first text that hangs ends the family (see _work)
+            yield o * d + c + e * d
+            yield o * d + c + e * (d - 1)      # one closer missing
+            yield o * d + c                    # nothing closed
 
 
 def _work(spec):
+    from hv.core import roomy_call
+    return roomy_call(_work1, spec)          # one large frame for everything below: no data-stack chunk thrash in the recursive reader
+
+
+def _work1(spec):
     t0 = time.time()
     n = 0
     bad = None
@@ -178,6 +205,8 @@ def run(chk):
         add("edits/every-one-character-edit-of-generated-valid-programs", ("edits", p))
     for name in DEEP:
         add(f"deep/{name}", ("deep", name))
+    for name in NEST:
+        add(f"nest/{name}: every depth up to {NEST_DEPTHS[-1]}, closed and unclosed, is read or rejected within the time limit", ("nest", name))
     chk.bounds["texts"] = f"all texts of length <= {L1} over {len(full)} characters and of length <= {L2} over {len(core)} core characters"
     chk.bounds["tokens"] = f"all sequences of <= 3 of {len(TOKENS)} lexical tokens" + ("" if quick else f" and of 4 of {len(TOKENS4)}")
     chk.bounds["delimiters"] = f"all texts of length {L3} over {len(tiny)} delimiter characters"
@@ -206,7 +235,7 @@ def run(chk):
             n += r[1]
             bad = bad or r[2]
         chk.evaluations += n
-        kind = "exhaustive_finite" if not group.startswith("deep/") else "bounded"
+        kind = "exhaustive_finite" if not group.startswith(("deep/", "nest/")) else "bounded"
         if bad:
             chk.ob(group, False, "ex", kind, detail=f"reading {bad[0]!r} raised {bad[1]}", witness={"input": bad[0], "observed": bad[1]},
                    replay={"confirmed": True, "input": bad[0], "observed": bad[1]})
